@@ -7,8 +7,9 @@
 # serialization stuff
 ENCODING = 'utf-8'
 BYTE_ORDER = "big"
-STR_LEN_BYTES = 2
-NONE_STR_LEN = (1 << 16) - 1
+# a BAM tag copied with --bam_tags (e.g. the modified-base tag MM of a long read) can be longer than 64 KB
+STR_LEN_BYTES = 4
+NONE_STR_LEN = (1 << 32) - 1
 SHORT_INT_BYTES = 2
 LONG_INT_BYTES = 4
 TERMINATION_INT = (1 << 32) - 1
